@@ -57,6 +57,11 @@ def cmpOp {α : Type} [Cmp α] [Codec α] (op : String) (args : List String) : O
       let (i, r) ← pInterval (α := α) args; let (j, _) ← pInterval (α := α) r
       pure [encOrd (i.partialCmp j), encBool (i.ltI j), encBool (i.leI j), encBool (i.gtI j),
             encBool (i.geI j), encBool (i.beq j)]
+  | "copy" => do
+      let (i, _) ← pInterval (α := α) args
+      let c := i.clone
+      pure [encBool (i.beq c), encOrd (i.partialCmp c), encBool (i.leI c), encBool (i.geI c),
+            encBool (i.ltI c), encBool (i.gtI c)]
   | "eq" => do
       let (i, r) ← pInterval (α := α) args; let (j, _) ← pInterval (α := α) r
       pure [encBool (i.beq j)]
@@ -223,6 +228,17 @@ def pairsOp (args : List String) : Option (List String) :=
       pure [toString p.1, toString p.2]
   | _ => none
 
+/-- interval arithmetic over `u8` (overflow checks on): the exact image over the integers when every bound of it
+    is representable, the overflow panic otherwise -/
+def uArith (op : String) (args : List String) : Option (List String) :=
+  if !(["add", "sub", "addi", "subi"].contains op) then none else do
+  let r ← numOp (α := Int) op args
+  if r.head? == some "panic" then pure r else
+  let bad := r.any fun t => match parseInt? t with
+    | some v => v < 0 || v > 255
+    | none => false
+  pure (if bad then ["panic", "overflow"] else r)
+
 def first (xs : List (Option (List String))) : Option (List String) :=
   xs.foldl (fun acc x => match acc with | some a => some a | none => x) none
 
@@ -236,7 +252,7 @@ def intervalOp (op ty : String) (args : List String) : Option (List String) :=
   | "s" => first [cmpOp (α := String) op args,
                   hashOp (α := String) (fun s =>
                     ["bytes:" ++ String.join (s.toUTF8.toList.map (fun b => hexOf b.toNat 2)), "u8:255"]) op args]
-  | "u" => first [cmpOp (α := Nat) op args,
+  | "u" => first [uArith op args, cmpOp (α := Nat) op args,
                   @extOp Nat natNumOps u8Extremes _ op args,
                   hashOp (α := Nat) (fun x => ["u8:" ++ toString x]) op args]
   | "n" => if op == "pairs" then pairsOp args else cmpOp (α := Nat) op args
